@@ -123,14 +123,15 @@ type evmTx struct {
 	logs   []*evmLog
 	block  *evmBlock // block it is currently mined in (nil: dropped)
 	// bookkeeping for the oracle
-	deliveredInc   int       // watcher incarnation that received the log notification (0: none)
-	deliveredBlock *evmBlock // block named in that notification
-	handoffs       map[string]int
-	mutated        bool // orphaned / re-mined / status flipped at some point
-	failFirstHead  uint64
-	headAtDelivery uint64 // newest head the poller had been served when the log notification went out
-	abandonLegit   bool
-	pendingSeen    map[string]bool // "log index/block hash" -> the watcher held this message in its pending set at some point
+	deliveredInc       int       // watcher incarnation that received the log notification (0: none)
+	deliveredBlock     *evmBlock // block named in that notification
+	handoffs           map[string]int
+	mutated            bool // orphaned / re-mined / status flipped at some point
+	failFirstHead      uint64
+	headAtDelivery     uint64 // newest head the poller had been served when the log notification went out
+	lagEpochAtDelivery int
+	abandonLegit       bool
+	pendingSeen        map[string]bool // "log index/block hash" -> the watcher held this message in its pending set at some point
 }
 
 type evmBlock struct {
@@ -215,6 +216,8 @@ type evmSim struct {
 	holdGate          chan struct{} // non-nil while the consumer of hand-offs does not read
 	holdKick          chan struct{}
 	holdUsed          bool
+	lagEpoch          int
+	stallUntil        time.Duration
 	headServedInPhase uint64
 	reobsPhase        bool
 	aborting          bool
@@ -280,6 +283,7 @@ func (s *evmSim) notify(tx *evmTx, b *evmBlock, removed bool) {
 			if !removed {
 				tx.deliveredInc, tx.deliveredBlock = sub.inc, b
 				tx.headAtDelivery = s.maxHeadServed
+				tx.lagEpochAtDelivery = s.lagEpoch
 			}
 			s.stats.Probe("log-notifications")
 		}
@@ -554,24 +558,45 @@ func (s *evmSim) release(p *evmParked) {
 	s.mu.Lock()
 	code := -1
 	s.reqs[p.kind]++
+	if p.kind == "blockByNumber" && !p.phase {
+		// a head is served while the header loop may still be in the middle of a pass (a receipt
+		// lookup of the polling path is parked or stalled, or the consumer of hand-offs is busy): from
+		// here on the loop may be working on an older head than the newest one served
+		busy := s.holdGate != nil || s.now() < s.stallUntil
+		for _, q := range s.parked {
+			if q.kind == "receipt" && !q.phase {
+				busy = true
+			}
+		}
+		if busy {
+			s.lagEpoch++
+		}
+	}
 	if s.aborting {
 		code = 0
 	} else if c, hit := s.faultFor(p.kind, p.key); hit {
 		code = c
 		s.stats.Fault([]string{"rpc-error:", "rpc-stall:", "rpc-error-header-not-found:"}[code] + p.kind)
+		if code == 1 && p.kind == "receipt" && !p.phase {
+			s.stallUntil = s.now() + 6*time.Second // the caller gives up after five
+		}
 		if p.kind == "receipt" && !p.phase {
 			// "abandoned only after the node has failed to confirm it for the whole abandonment window":
 			// remember when every lookup of a transaction failed from its first attempt until a head
 			// at least 60 blocks further on
 			for _, tx := range s.txs {
 				if tx.hash.Hex() == p.key {
-					// The header loop may lag behind the poller (a stalled lookup holds it up while newer
-					// heads are already fetched), so the head it is working on when a lookup fails is only
-					// known to lie between the head served when the log was delivered and the newest head
-					// served. The window is judged against the lower end: two failed lookups, the later
-					// one at least 60 heads after the head at which the message can first have been ready.
+					// The window runs from the head the header loop is working on when a lookup first fails.
+					// Normally that is the newest head served. But the loop may lag behind the poller (a
+					// stalled lookup or a busy consumer holds it up while newer heads are fetched): if that
+					// can have happened since the log was delivered, the head is only known to lie between
+					// the head served at delivery and the newest one, and the lower end is taken.
 					if tx.failFirstHead == 0 {
-						tx.failFirstHead = tx.headAtDelivery + 1
+						tx.failFirstHead = s.maxHeadServed + 1
+						if tx.lagEpochAtDelivery != s.lagEpoch {
+							tx.failFirstHead = tx.headAtDelivery + 1
+							s.stats.Probe("abandonment-window-judged-with-lag-allowance")
+						}
 					} else if s.maxHeadServed+1 >= tx.failFirstHead+60 {
 						tx.abandonLegit = true
 					}
